@@ -5,7 +5,7 @@ CONSTANTS
   Kind = "contacts"
   Atoms <- AtomsListN
   Prefix <- PfxNone
-  MaxLen = 7
+  MaxLen = 8
   Cfgs <- CfgsCont
   Junk = 34
   EmitOn = TRUE
